@@ -17,7 +17,8 @@ func init() {
 		"(R5) every index, slice, big-endian load and allocation in the decoder is entailed to be inside its window / not larger than the remaining input by the dominating guards (ideal integers); "+
 		"(R6) the decision table of the variant (selector) logic in both directions, decided on the paths of one iteration wherever the bookkeeping is written (inline or in a helper that answers chosen / not chosen): a variant whose selector was not seen, whose type is not a pointer (whatever the selector value, and before anything that is only defined on pointers runs on the field), or that is a second pick for a served selector is an error; an unchosen one is set nil / must be nil; the chosen one is allocated / must be non-nil, marked served and coded exactly once as v.Field(i).Elem(), a plain field as v.Field(i) of the field whose tag was looked up; "+
 		"(R10) the bounds gate every accepting path, walked from the function entries: with every info.check (decoder: readVarUint, and check inside it) failing, marshalField / parseField accept only in the cases of shapes without bounds, readVarUint and the *WithParams entry points not at all; the entry points hand back exactly what the workers produced, Marshal / Unmarshal forward, and only the codec calls the workers. "+
-		"NOT covered: the round-trip equalities themselves, semantics of package reflect, integer wrap-around (1<<(8*count) for count=8; int(varlen) on 32-bit platforms), tag sizes above 8 on selector-tagged fields, zero-size element types, termination.",
+		"(R11) element types that occupy no bytes (struct { }, [0]byte, structs of those): every loop of the decoder ends — it is a range over a map, or an integer cursor moves forward by at least one on every way round (constant step, or the recursive call's verified postcondition offset ≤ result together with a comparison result ≠ / > cursor whose other branch cannot reach the next round) and every way round passes a test that keeps the cursor below a bound the loop does not change; so every round of the element loop consumes at least one byte of the vector's body or ends in an error, and at most len(body) elements are appended; in the encoder every way from an element's encoding (marshalField on v.Index(i)) to the next round or an accepting return passes a comparison that found the body longer than before the element (length read before the call, or 0 for a buffer fresh in the round; the encoder only appends): a vector of zero-size elements is refused unless it is empty. "+
+		"NOT covered: the round-trip equalities themselves, semantics of package reflect, integer wrap-around (1<<(8*count) for count=8; int(varlen) on 32-bit platforms), tag sizes above 8 on selector-tagged fields, termination of the recursion on recursive Go types (depth is bounded by the input only through the bytes each level consumes), loops of the encoder other than the growth of the element loop's body. R11 decides progress from comparisons of offsets / buffer lengths only: a refusal of zero-size element TYPES made up front through package reflect (reflect.Type.Size() == 0), or a single test after the loop (no bytes written for a non-empty vector), is not recognised and reads as undecided.",
 		runC09)
 }
 
@@ -75,6 +76,7 @@ func c09Run(r *Run, only map[string]bool) {
 	guarded("C09.R8", func() { c09FreshVector(r) })
 	guarded("C09.R9", func() { c09R9(r, pf, mf, rv, um) })
 	guarded("C09.R10", func() { c09R10(r, pf, mf, rv) })
+	guarded("C09.R11", func() { c09R11(r, pf, mf, rv, um) })
 }
 
 // ---- R1: one offset-relative base ------------------------------------------------------
